@@ -179,7 +179,19 @@ def session_replay(unit, outcome, model):
     args = [RP.jval(RP.concretize(model, a)) for a in outcome.extra['args'][1:]]
     req = {'kind': 'session', 'receiver': unit.receiver, 'method': unit.method, 'args': args,
            'state': RP.session_state_request(S, model), 'cpu_s': 5.0}
+    mat = getattr(unit, 'materialise', None)
+    if mat is not None:
+        req = mat(unit, outcome, model, req)
+    elif uses_oracles(outcome):
+        return None          # inputs of an ASSUMED abstract contract cannot be synthesised generically
     return req
+
+
+def uses_oracles(outcome):
+    for f in outcome.path.facts:
+        if 'ora!' in str(f):
+            return True
+    return False
 
 
 def session_expected(unit, outcome, model):
@@ -213,6 +225,35 @@ def pre_state_updates(S):
             out.append((S.P.f['msg_sent_stat'], k, pre['sent.' + k]))
             out.append((S.P.f['msg_recv_stat'], k, pre['recv.' + k]))
     return out
+
+
+def concrete_session_run(prog, unit, req):
+    """the ENGINE as an interpreter: the real bodies (no contracts, loops executed) on the concrete request;
+    returns (outcome kind, exception class name, view)"""
+    from .paths import Path
+    from .values import CUR
+    from .interp import Interp, PyExc
+    from .session import Session
+    st = req['state']
+    p = Path([], [])
+    saved = CUR.path
+    CUR.path = p
+    try:
+        it = Interp(prog)
+        it.no_contracts = True
+        it.concrete_loops = True
+        S = Session(it, with_protocol=bool(st.get('with_protocol', True)), values=st)
+        recv = {'fsm': S.fsm, 'peering': S.peering, 'protocol': S.P}[req['receiver']]
+        args = [RP.unj(a) for a in req.get('args', [])]
+        f = prog.func(unit.qual)
+        kind, exc = 'return', None
+        try:
+            it.call_func(f, [recv] + args, {})
+        except PyExc as e:
+            kind, exc = 'raise', e.val.clsname
+        return kind, exc, RP.heap_view(S, None, p.effects)
+    finally:
+        CUR.path = saved
 
 
 def session_predicted(unit, outcome, model):
@@ -253,6 +294,7 @@ class Run(object):
 
     # -- verification units
     def run_unit(self, unit, prog):
+        self.prog = prog
         t0 = time.time()
         try:
             res = verify(prog, unit.qual, unit.build, unit.spec, name=unit.name, **unit.verify_kw)
@@ -349,6 +391,10 @@ class Run(object):
                     req = unit.request(oc, fd.model)
                 else:
                     continue
+                if req is None:
+                    fd.replay = {'note': 'path depends on an ASSUMED abstract contract; no concrete input synthesised',
+                                 'confirmed': False}
+                    continue
             except Exception as e:
                 fd.replay = {'error': 'could not materialise the model: %r' % (e,)}
                 continue
@@ -393,6 +439,9 @@ class Run(object):
                 outs = [outs[int(i * step)] for i in range(ucap)]
             reqs, meta = [], []
             for o in outs:
+                if o.path.opaque_ops:
+                    self.witness_skipped = getattr(self, 'witness_skipped', 0) + 1
+                    continue          # the engine over-approximated an unmodelled operation: no exact prediction
                 m = smt.path_model(o.path)
                 if m is None:
                     continue
@@ -415,12 +464,18 @@ class Run(object):
                 self.witnesses += 1
                 try:
                     if unit.kind == 'session':
-                        pred = session_predicted(unit, o, m)
+                        try:
+                            ekind, eexc, pred = concrete_session_run(self.prog, unit, req)
+                        except Unsupported as e:
+                            self.witness_skipped = getattr(self, 'witness_skipped', 0) + 1
+                            self.witnesses -= 1
+                            self.notes.append('witness of %s outside the interpreter subset: %s' % (unit.name, e))
+                            continue
                         diffs = RP.compare_views(pred, out.get('view', {}))
                         kind = out.get('outcome')
-                        if kind != o.kind:
-                            diffs.append('outcome kind: engine %s, CPython %s (%s %s)' % (
-                                o.kind, kind, out.get('exc'), out.get('exc_str', out.get('error'))))
+                        if kind != ekind:
+                            diffs.append('outcome kind: engine %s %s, CPython %s (%s %s)' % (
+                                ekind, eexc, kind, out.get('exc'), out.get('exc_str', out.get('error'))))
                     else:
                         diffs = unit.predicted(o, m, out)
                 except Exception as e:
@@ -448,6 +503,17 @@ class Run(object):
             k = kmap[kid]
             lines.append('KNOWN-FINDING: property=%s %s [%s; %d refuted obligation(s) inside region `%s` of %s]' % (
                 self.prop, k['what'], kid, len(fds), k['region'], k['function'].split('.')[-1]))
+        # replays of known findings are rewritten on every run (the committed copies live in known/)
+        for kid, fds in sorted(known_lines.items()):
+            fd = next((x for x in fds if x.replay and x.replay.get('confirmed')), fds[0])
+            doc = {'property': self.prop, 'known_finding': kid, 'obligation': fd.verdict.ob.name,
+                   'function': getattr(fd.unit, 'qual', None), 'what': kmap[kid]['what'], 'region': kmap[kid]['region'],
+                   'clause': fd.verdict.ob.meta.get('detail') or str(z3.simplify(fd.verdict.ob.goal))[:2000],
+                   'solver': {'backend': fd.verdict.backend, 'result': 'sat (obligation refuted)',
+                              'model': model_text(fd.model)},
+                   'native': fd.replay if fd.replay else {'confirmed': False}}
+            with open(os.path.join(REPLAY_DIR, '%s.json' % kid), 'w') as fh:
+                json.dump(doc, fh, indent=1, default=str)
         # group violations: one line per (unit, set of clauses that fail together on a path)
         per_path = {}
         for fd in violations:
@@ -476,7 +542,7 @@ class Run(object):
                 json.dump(doc, fh, indent=1, default=str)
             rel = os.path.relpath(path, VERIF)
             lines.append('VIOLATION property=%s replay=%s%s' % (self.prop, rel, '' if confirmed else ' no-failing-input-found'))
-            print('  %s: %s' % (uname, '; '.join(n.split('/', 1)[-1] for n in names)[:300]))
+            print('  %s [%s]: %s' % (uname, model_summary(fd.model), '; '.join(n.split('/', 1)[-1] for n in names)[:300]))
             vio_files.append(rel)
             exit_code = 1
         if self.engine_mismatches:
@@ -531,6 +597,21 @@ class Run(object):
                   self.prop, self.n_obl, self.n_dis, cov['refuted_inside_known_finding_regions'], len(vgroups),
                   len(self.undecided), self.paths, self.witness_ok, self.witnesses, level, time.time() - self.t0))
         return exit_code
+
+
+SUMMARY_VARS = ('st', 'H', 'cfgH', 'allow_auto', 'with_protocol', 'error', 'suberror', 'proposed_hold', 'tr_connected',
+                'P_disconnected')
+
+
+def model_summary(m):
+    if m is None:
+        return ''
+    out = []
+    for d in m.decls():
+        n = str(d)
+        if d.arity() == 0 and (n in SUMMARY_VARS or n.startswith('ora!')):
+            out.append('%s=%s' % (n, m[d]))
+    return ' '.join(sorted(out))
 
 
 def model_text(m):
